@@ -219,6 +219,89 @@ def combine_harness(ns):
 
 
 # ------------------------------------------------------------------------------------------------ space-time initial conditions
+def load_dirichlet(enc=None, transform=None):
+    """compute_dirichlet_bc from source; approx.interpolate -> a symbolic coefficient array of the documented shape
+    (face dofs [+ components]); NaN filtering -> nothing is NaN"""
+    import sys, types
+    bns = {}
+    srcload.load_defs('pyiga/bspline.py', ['_parse_bdspec'], bns, encoded=enc)
+    class NP(SymNP):
+        def isnan(self, a): return np.zeros(np.shape(a), dtype=bool)
+        def isscalar(self, x): return isinstance(x, (int, float)) or SymNP.isscalar(self, x)
+    pkg = 'symasmD%d' % id(bns)
+    ns = {'np': NP(ints_object=False), 'itertools': itertools, 'bspline': _NS(**bns), '__package__': pkg, '__name__': pkg + '.assemble'}
+    srcload.load_defs('pyiga/assemble.py', ['slice_indices', 'combine_bcs', '_drop_nans', 'compute_dirichlet_bc'], ns, encoded=enc, transform=transform)
+    state = {}
+    def interpolate(kvs, f, geo=None):
+        shape = tuple(kv.numdofs for kv in kvs) + tuple(state['comp'])
+        a = np.empty(shape, dtype=object)
+        for I in np.ndindex(*shape): a[I] = Sym(z3.Real('d_' + '_'.join(map(str, I))))
+        state['coeffs'] = a
+        return a
+    pm = types.ModuleType(pkg); pm.__path__ = []
+    am = types.ModuleType(pkg + '.approx'); am.interpolate = interpolate
+    sys.modules[pkg] = pm; sys.modules[pkg + '.approx'] = am
+    ns['_state'] = state
+    return ns
+
+
+def dirichlet_bc_harness(ns, N, numcomp):
+    """for every face: the returned (index, value) pairs say: the dof with tensor index `face position + component block` gets the
+    interpolation coefficient of THAT face position and component (blocked numbering j * prod(N) + raveled index)"""
+    dim = len(N)
+    def run(c):
+        class KVs:
+            def __init__(self, n): self.numdofs = n
+        kvs = tuple(KVs(n) for n in N)
+        class Geo:
+            sdim = dim
+            def boundary(self, bdspec): return 'bdgeo'
+        st = ns['_state']; st['comp'] = (numcomp,) if numcomp else ()
+        NN = int(np.prod(N))
+        for bdax in range(dim):
+            for side in (0, 1):
+                idx, val = ns['compute_dirichlet_bc'](kvs, Geo(), (bdax, side), 'g')
+                D = st['coeffs']
+                idx = [int(i) for i in np.asarray(idx).ravel()]; val = list(np.asarray(val, dtype=object).ravel())
+                exp = {}
+                faceN = [n for d, n in enumerate(N) if d != bdax]
+                for fpos in itertools.product(*[range(n) for n in faceN]):
+                    full = list(fpos); full.insert(bdax, 0 if side == 0 else N[bdax] - 1)
+                    rav = int(np.ravel_multi_index(tuple(full), N))
+                    for j in range(numcomp or 1):
+                        exp[rav + j * NN] = D[tuple(fpos) + ((j,) if numcomp else ())]
+                ok = [z3.BoolVal(sorted(idx) == sorted(exp) and len(set(idx)) == len(idx))]
+                for i, v in zip(idx, val):
+                    if i in exp: ok.append(lift(v) == lift(exp[i]))
+                c.check(z3.And(*ok), 'compute_dirichlet_bc: every face dof (and component block) exactly once, paired with the coefficient of its own face position')
+        c.witness('dirichlet bc')
+    return run
+
+
+REPLAY_DBC = r'''
+import sys, json, numpy as np
+w = json.load(sys.stdin)
+from pyiga import bspline, geometry, assemble
+bad = []
+for dim, sizes in ((2, (3, 4)), (3, (2, 3, 4))):
+    kvs = tuple(bspline.make_knots(2, 0.0, 1.0, n) for n in sizes)
+    geo = geometry.unit_square() if dim == 2 else geometry.unit_cube()
+    N = tuple(kv.numdofs for kv in kvs); NN = int(np.prod(N))
+    fs = [lambda *x: 1.0 + x[0] + 2 * x[1] * x[1] + (3 * x[2] if len(x) > 2 else 0), lambda *x: 2.0 - x[0] * x[1] + (x[2] ** 2 if len(x) > 2 else 0)]
+    vec = lambda *x: np.stack([fs[0](*x), fs[1](*x)], axis=-1)
+    for ax in range(dim):
+        for side in (0, 1):
+            iv, vv = assemble.compute_dirichlet_bc(kvs, geo, (ax, side), vec)
+            ref = {}
+            for j in range(2):
+                i1, v1 = assemble.compute_dirichlet_bc(kvs, geo, (ax, side), fs[j])
+                for a, b in zip(i1, v1): ref[int(a) + j * NN] = float(b)
+            got = {int(a): float(b) for a, b in zip(iv, vv)}
+            if sorted(got) != sorted(ref) or any(abs(got[k] - ref[k]) > 1e-10 for k in ref): bad.append('vector-valued data on face %s of a %dD space: blocked dofs/values differ from the scalar results per component' % ((ax, side), dim))
+print(json.dumps({'reproduced': bool(bad), 'bad': bad[:4]}))
+'''
+
+
 def load_initial(enc=None, transform=None):
     """compute_initial_condition_01 from source: interpolation of the boundary data -> symbolic coefficient vectors (contract of approx.interpolate, C17),
     np.linalg.solve -> contract "B X = R" (2x2, nonsingular), active_deriv -> transliterated bspline_cy kernel on a SYMBOLIC time knot vector"""
@@ -387,6 +470,16 @@ def main():
         run.absorb(st, 'combine_bcs', bound={'case': 'two conditions of 2 dofs out of 3, all overlaps'})
         for cex in st.cex:
             run.report('combine_bcs', cex['name'], {'kind': 'combine', 'model': jsonable(sx.model_dict(cex['model']))}, True)
+    if run.want('dirichlet'):
+        encd = srcload.Encoded(); dns = load_dirichlet(encd); run.add_encoded(encd)
+        for N, nc in [((2, 3), 0), ((2, 3), 2), ((2, 3, 2), 2), ((3, 2, 2), 0)] + ([((2, 2, 3), 3), ((4,), 2)] if thorough else []):
+            st = sx.explore(dirichlet_bc_harness(dns, N, nc), timeout_ms=60000)
+            bound = {'dofs per axis': list(N), 'components': nc or 'scalar', 'faces': 'all'}
+            run.absorb(st, 'compute_dirichlet_bc', bound=bound, sample={'obligation': 'Dirichlet dofs and values of a face', **bound})
+            for cex in st.cex:
+                r = realbuild.run_real(REPLAY_DBC, {}, only=['bspline_cy'])
+                run.report('compute_dirichlet_bc', '%s %s; real: %s' % (cex['name'], bound, r['bad']), {'kind': 'dbc'}, r['reproduced'])
+                break
     if run.want('initial'):
         enc2 = srcload.Encoded(); ins = load_initial(enc2); run.add_encoded(enc2)
         for dim, p, nint in [(2, 1, 1), (2, 2, 1), (3, 2, 0), (2, 3, 1)] + ([(3, 2, 1), (2, 2, 2), (3, 3, 0)] if thorough else []):
